@@ -42,6 +42,8 @@ RoutingKey make_key(const std::string &pat) {
     return b.build();
 }
 
+struct CallbackThrew {};
+
 struct Delivery {
     int id;
     long val;
@@ -165,7 +167,12 @@ void run_typed(const Execution &ex) {
             int id = next_id++;
             auto tracker = std::make_shared<Tracker>(id);
             Obs *raw = nullptr;
-            auto h = Sig::sub(*router, make_key(st.str("k", "-")), [id, tracker](long v) { g_log.push_back({id, v}); }, raw);
+            // thr=1: the callback records the delivery and then throws out of notify()
+            bool thr = st.num("thr", 0) != 0;
+            auto h = Sig::sub(*router, make_key(st.str("k", "-")), [id, tracker, thr](long v) {
+                g_log.push_back({id, v});
+                if (thr) throw CallbackThrew{};
+            }, raw);
             handles.emplace(id, std::move(h));
             raws[id] = raw;
         } else if (op == "Unsubscribe") {
@@ -176,7 +183,11 @@ void run_typed(const Execution &ex) {
         } else if (op == "Invalidate") {
             raws.at((int) st.num("id"))->invalidate();
         } else if (op == "Notify") {
-            ret = (long) Sig::notify(*router, make_key(st.str("p")), (int) st.num("a", 1));
+            try {
+                ret = (long) Sig::notify(*router, make_key(st.str("p")), (int) st.num("a", 1));
+            } catch (const CallbackThrew &) {
+                op = "NotifyThrew";   // reported under this name: the deliveries made before the exception are in the log
+            }
         } else if (op == "Shrink") {
             router->shrink(make_key(st.str("p")));
         } else {
